@@ -31,6 +31,7 @@ func main() {
 			"(2) tamper cases = for every stored ciphertext and meta blob: one flip per byte position (all positions for blobs <= 1 KiB, else version byte, age header, MAC line, nonce, every STREAM chunk boundary, last bytes plus seeded positions), truncations to each length class, extensions by 1 and 16 bytes, and all ordered blob-for-blob swaps data<-data, data<-meta, meta<-meta, meta<-data (including a user blob whose content is meta-shaped); after a data mutant every plaintext is fetched and stat'ed through the live store, after a meta mutant the store is re-created with an empty index first; oracle: exact original bytes and size, or an error; "+
 			"(3) histories of 120-450 small receives with restarts (old incarnation frozen, new store over the same lower stores, empty index) at seeded points and at five crash points inside a compaction; after each restart every acknowledged blob must be stat-able with its size, enumerated once in ascending order and fetched intact; "+
 			"(4) directed histories around one compaction, same oracle: the index row of the receive that triggers the compaction is written only after the compaction looked it up (slow index); one transient failure of an index lookup made by a compaction goroutine (launched by a receive / by the start-up scan); a restart that keeps the index (fully, or minus a seeded third of its rows) followed by a compaction and then the loss of the index; wrapped stores that do not re-hash what they are given (localdisk) with writes that fail once after the body was consumed and a client that retries refused receives; thorough: one history of > 10,250 receives that makes a packed meta blob full (> 10,000 lines) with restarts before and after; "+
+			"(6) start-up scans (empty index) that meet ONE transient read failure of the wrapped meta store: its listing fails at once / after a seeded number of entries (1, all but one, enough for the scan to launch a compaction, random) / after the last entry / on the next page, or the fetch of one listed meta blob (seeded; also a packed one) fails or its body breaks off at a seeded offset, or one seeded write of a recovered row into the new index fails; over a meta store holding only small meta blobs, a packed one plus small ones, or more than 100 small ones; oracle: CreateStorage fails (then, whether the compaction launched by the refused scan was left to finish or cut off, the next fault-free creation must succeed) or the store it returned passes the restart oracle of (3); then a fault-free restart, more receives and another index loss, same oracle; "+
 			"(5) everything HANDED to the wrapped stores (names and bodies of writes before any fault decides their fate, names given to Fetch/StatBlobs/RemoveBlobs, enumeration cursors) is scanned like (1). "+
 			"distinct = tamper case id (store, class, target blob, position/length/source) whose served bytes differ from the stored ones, or history (length, crash kind, restart sequence)",
 		run)
@@ -78,6 +79,10 @@ func run(r *ev.Run) {
 		i := i
 		jobs = append(jobs, func() { runDirected(r, root, i) })
 	}
+	for i := 0; fam("scanfault") && i < r.Pick(1, 4)*len(scanFaultKinds)*len(scanFaultStates); i++ {
+		i := i
+		jobs = append(jobs, func() { runScanFault(r, root, i) })
+	}
 	workers := runtime.NumCPU() - 2
 	if workers > 14 {
 		workers = 14
@@ -106,6 +111,7 @@ func run(r *ev.Run) {
 	r.Extra("tamper_cases", r.Counter("tamper_cases"))
 	r.Extra("restarts", r.Counter("restarts"))
 	r.Extra("compactions_completed", r.Counter("compactions_completed"))
+	r.Extra("scan_faults_delivered", r.Counter("scan_faults_delivered"))
 	fmt.Printf("PROGRESS C11 tamper_cases=%d restarts=%d compactions=%d bytes_scanned=%d\n",
 		r.Counter("tamper_cases"), r.Counter("restarts"), r.Counter("compactions_completed"), r.Counter("bytes_scanned"))
 
@@ -150,6 +156,13 @@ func run(r *ev.Run) {
 	r.Require("leak_monitor",
 		"handed/blobs/ReceiveBlob/name", "handed/blobs/ReceiveBlob/body", "handed/blobs/Fetch/name",
 		"handed/meta/ReceiveBlob/name", "handed/meta/ReceiveBlob/body", "handed/meta/Fetch/name", "handed/meta/RemoveBlobs/name", "handed/meta/EnumerateBlobs/cursor")
+	var sf []string
+	for _, k := range scanFaultKinds {
+		sf = append(sf, k)
+	}
+	r.Require("scan_faults", sf...)
+	r.Require("scan_fault_states", scanFaultStates...)
+	r.Require("restarts", "final/after-start-up-scan-fault")
 	if r.Thorough() {
 		r.Require("restarts", "long/before-a-meta-blob-is-full", "long/after-a-meta-blob-became-full", "long/final")
 		r.Require("structures", "packed-meta/full(>10000 lines)")
